@@ -5,8 +5,11 @@ use crate::script::Seg;
 use crate::send::*;
 use crate::spec;
 
-pub fn generate(_seed: u64, tier: &str, sink: &mut Sink) {
+pub fn generate(seed: u64, tier: &str, sink: &mut Sink) {
     let thorough = tier == "thorough";
+    // "every request": also the ones sent while following redirects (peer, target form and Host of each hop)
+    crate::p_c09::generate_chains(seed ^ 0xC08C, if thorough { 3000 } else { 250 }, true, sink);
+    let mut tunnel_seen = 0usize;
     let schemes = ["http", "https"];
     // (as written, host_str expected, is_domain)
     let hosts = [("Example.COM", "example.com"), ("a.b.c", "a.b.c"), ("127.0.0.1", "127.0.0.1"), ("[::1]", "[::1]"), ("[2001:DB8::1]", "[2001:db8::1]")];
@@ -25,8 +28,15 @@ pub fn generate(_seed: u64, tier: &str, sink: &mut Sink) {
                         for fr in frags {
                             for us in users {
                                 for px in proxies {
-                                    if !thorough && (px.is_some() && sc == "https" && path != "" || path == "/" || (us.is_some() && fr.is_none() && q.is_some())) && hw != "Example.COM" {
+                                    if !thorough && (px.is_some() && sc == "https" && (path != "" || q.is_some() || fr.is_some() || us.is_some() || px.map_or(false, |p| p.contains('@'))) || path == "/" || (us.is_some() && fr.is_none() && q.is_some())) && hw != "Example.COM" {
                                         continue;
+                                    }
+                                    if !thorough && px.is_some() && sc == "https" {
+                                        // a tunnelled case costs a TLS ClientHello (≈ 75 ms of CPU): every 6th in quick
+                                        tunnel_seen += 1;
+                                        if tunnel_seen % 6 != 0 {
+                                            continue;
+                                        }
                                     }
                                     let mut url = format!("{}://", sc);
                                     if let Some(u) = us {
